@@ -54,12 +54,19 @@ class Gen {
   const Env& env;
   std::vector<GVar> locals;
   int counter{ 0 };
+  int inFlight{ 0 };
   int maxDepth;
+public:
+  bool siblingReuse{ false };
+private:
 
   std::string Fresh() {
     static const char* names[]{ "ξ", "σ", "α", "β", "γ", "a", "b", "t", "δ", "x" };
+    // siblingReuse: the name depends only on the nesting depth, so sibling scopes bind the same name (legal) and nested scopes never do
+    if (siblingReuse) return std::string(names[(locals.size() + static_cast<size_t>(inFlight++)) % 10]);
     return std::string(names[r.Below(10)]) + std::to_string(++counter);
   }
+  void Push(GVar v) { locals.push_back(std::move(v)); inFlight = 0; }
   std::vector<const GVar*> VarsOf(const GTy& t) const {
     std::vector<const GVar*> v;
     for (auto& l : locals) if (l.ty == t) v.push_back(&l);
@@ -120,28 +127,37 @@ public:
     switch (r.Below(14)) {
     case 0: { std::string s = "{"; const int n = r.Range(1, 3); for (int i = 0; i < n; ++i) { if (i) s += ","; s += Expr(u, depth + 1); } return s + "}"; }
     case 1: case 2: { static const char* ops[]{ "∪", "∩", "\\", "∆" }; return Par(Expr(t, depth + 1) + ops[r.Below(4)] + Expr(t, depth + 1)); }
-    case 3: { const std::string v = Fresh(); const std::string dom = Expr(t, depth + 1); locals.push_back({ v, u }); std::string s = "D{" + v + "∈" + dom + "|" + Logic(depth + 1) + "}"; locals.pop_back(); return s; }
+    case 3: { const std::string v = Fresh(); const std::string dom = Expr(t, depth + 1); Push({ v, u }); std::string s = "D{" + v + "∈" + dom + "|" + Logic(depth + 1) + "}"; locals.pop_back(); return s; }
     case 4: if (u.k == GTy::SET) return "ℬ(" + Expr(u, depth + 1) + ")"; return Fallback(t);
     case 5: if (u.k == GTy::TUPLE) { std::string s; for (size_t i = 0; i < u.sub.size(); ++i) { if (i) s += "×"; const std::string f = Expr(GTy::Set(u.sub[i]), depth + 1); s += Atomic(f) ? f : "(" + f + ")"; } return Par(s); } return Fallback(t);
-    case 6: { GTy tt = GTy::Set(GTy::Tuple({ u, RandomElemType(2) })); return "Pr1(" + Expr(tt, depth + 1) + ")"; }
+    case 6: { if (r.Pct(50)) { GTy tt = GTy::Set(GTy::Tuple({ u, RandomElemType(2) })); return "Pr1(" + Expr(tt, depth + 1) + ")"; } GTy tt = GTy::Set(GTy::Tuple({ RandomElemType(2), u })); return "Pr2(" + Expr(tt, depth + 1) + ")"; }
     case 7: return "red(" + Expr(GTy::Set(t), depth + 1) + ")";
     case 8: return "bool(" + Expr(u, depth + 1) + ")";
-    case 9: if (u.k == GTy::TUPLE) { return "Fi1[" + Expr(GTy::Set(u.sub[0]), depth + 1) + "](" + Expr(t, depth + 1) + ")"; } return Fallback(t);
+    case 9: if (u.k == GTy::TUPLE) {
+        // filter over any index list (not only 1..n), per-index parameters or one product parameter
+        const size_t n = u.sub.size(); const size_t i = r.Below(n);
+        if (r.Pct(60)) return "Fi" + std::to_string(i + 1) + "[" + Expr(GTy::Set(u.sub[i]), depth + 1) + "](" + Expr(t, depth + 1) + ")";
+        size_t j = r.Below(n); if (j == i) j = (i + 1) % n;
+        const std::string idx = std::to_string(i + 1) + "," + std::to_string(j + 1);
+        if (r.Pct(60)) return "Fi" + idx + "[" + Expr(GTy::Set(u.sub[i]), depth + 1) + "," + Expr(GTy::Set(u.sub[j]), depth + 1) + "](" + Expr(t, depth + 1) + ")";
+        return "Fi" + idx + "[" + Expr(GTy::Set(GTy::Tuple({ u.sub[i], u.sub[j] })), depth + 1) + "](" + Expr(t, depth + 1) + ")";
+      }
+      return Fallback(t);
     case 10: { // imperative
-      const std::string v = Fresh(); const GTy src = RandomElemType(1); const std::string dom = Expr(GTy::Set(src), depth + 1);
-      locals.push_back({ v, src }); std::string body = Expr(u, depth + 1); std::string guard = r.Pct(50) ? ";" + Logic(depth + 1) : ""; locals.pop_back();
+      const std::string v = Fresh(); const GTy src = r.Pct(60) ? u : RandomElemType(1); const std::string dom = Expr(GTy::Set(src), depth + 1);   // often the iterated variable itself is the result element
+      Push({ v, src }); std::string body = Expr(u, depth + 1); std::string guard = r.Pct(50) ? ";" + Logic(depth + 1) : ""; locals.pop_back();
       return "I{" + body + "|" + v + ":∈" + dom + guard + "}";
     }
     case 11: { // recursion (short / full)
-      const std::string v = Fresh(); const std::string init = Expr(t, depth + 1);
-      locals.push_back({ v, t }); std::string step = v + "∪" + Expr(t, depth + 1); std::string cond = r.Pct(50) ? "|card(" + v + ")<" + std::to_string(r.Range(1, 6)) : ""; locals.pop_back();
+      const std::string v = Fresh(); const std::string init = r.Pct(30) ? std::string("∅") : Expr(t, depth + 1);   // with ∅ the type of the variable is re-deduced from the step
+      Push({ v, t }); std::string step = v + "∪" + Expr(t, depth + 1); std::string cond = r.Pct(50) ? "|card(" + v + ")<" + std::to_string(r.Range(1, 6)) : ""; locals.pop_back();
       return "R{" + v + ":=" + init + cond + "|" + step + "}";
     }
     case 12: return Dom(u);
     default: { // declarative with tuple binder when possible
       if (u.k == GTy::TUPLE && u.sub.size() == 2) {
         const std::string a = Fresh(), b = Fresh(); const std::string dom = Expr(t, depth + 1);
-        locals.push_back({ a, u.sub[0] }); locals.push_back({ b, u.sub[1] }); std::string s = "D{(" + a + "," + b + ")∈" + dom + "|" + Logic(depth + 1) + "}"; locals.pop_back(); locals.pop_back(); return s;
+        Push({ a, u.sub[0] }); Push({ b, u.sub[1] }); std::string s = "D{(" + a + "," + b + ")∈" + dom + "|" + Logic(depth + 1) + "}"; locals.pop_back(); locals.pop_back(); return s;
       }
       return Fallback(t);
     }
@@ -155,14 +171,14 @@ public:
     case 1: case 2: { static const char* ops[]{ "&", "∨", "⇒", "⇔" }; return Wrap(Logic(depth + 1)) + ops[r.Below(4)] + Wrap(Logic(depth + 1)); }
     case 3: case 4: {
       const GTy u = RandomElemType(1); const std::string v = Fresh(); const std::string dom = Expr(GTy::Set(u), depth + 1);
-      locals.push_back({ v, u }); std::string s = std::string(r.Pct(50) ? "∀" : "∃") + v + "∈" + dom + " " + Wrap(Logic(depth + 1)); locals.pop_back(); return s;
+      Push({ v, u }); std::string s = std::string(r.Pct(50) ? "∀" : "∃") + v + "∈" + dom + " " + Wrap(Logic(depth + 1)); locals.pop_back(); return s;
     }
     case 5: {
       const GTy a = RandomElemType(2), b = RandomElemType(2); const std::string va = Fresh(), vb = Fresh(); const std::string dom = Expr(GTy::Set(GTy::Tuple({ a, b })), depth + 1);
-      locals.push_back({ va, a }); locals.push_back({ vb, b }); std::string s = std::string(r.Pct(50) ? "∀" : "∃") + "(" + va + "," + vb + ")∈" + dom + " " + Wrap(Logic(depth + 1)); locals.pop_back(); locals.pop_back(); return s;
+      Push({ va, a }); Push({ vb, b }); std::string s = std::string(r.Pct(50) ? "∀" : "∃") + "(" + va + "," + vb + ")∈" + dom + " " + Wrap(Logic(depth + 1)); locals.pop_back(); locals.pop_back(); return s;
     }
     case 6: { const GTy u = RandomElemType(1); const std::string va = Fresh(), vb = Fresh(); const std::string dom = Expr(GTy::Set(u), depth + 1);
-      locals.push_back({ va, u }); locals.push_back({ vb, u }); std::string s = "∀" + va + "," + vb + "∈" + dom + " " + Wrap(Logic(depth + 1)); locals.pop_back(); locals.pop_back(); return s; }
+      Push({ va, u }); Push({ vb, u }); std::string s = "∀" + va + "," + vb + "∈" + dom + " " + Wrap(Logic(depth + 1)); locals.pop_back(); locals.pop_back(); return s; }
     case 7: for (auto& f : env.funcs) if (f.logic && r.Pct(60)) return Call(f, depth); return Atom(depth);
     default: return Atom(depth);
     }
@@ -171,7 +187,7 @@ public:
   // function definition: [α∈Dom, ...] body
   std::string FunctionDef(bool predicate) {
     const int n = r.Range(1, 2); std::string head = "["; const size_t base = locals.size();
-    for (int i = 0; i < n; ++i) { const GTy u = RandomElemType(1); const std::string v = Fresh(); if (i) head += ","; head += v + "∈" + (r.Pct(15) ? "ℬ(R1)" : Dom(u)); locals.push_back({ v, u }); }
+    for (int i = 0; i < n; ++i) { const GTy u = RandomElemType(1); const std::string v = Fresh(); if (i) head += ","; head += v + "∈" + (r.Pct(15) ? "ℬ(R1)" : Dom(u)); Push({ v, u }); }
     std::string body = predicate ? Logic(1) : Expr(RandomType(), 1);
     locals.resize(base);
     return head + "] " + body;
@@ -216,10 +232,46 @@ inline std::vector<std::string> CodePoints(const std::string& s) {
   for (size_t i = 0; i < s.size();) { const unsigned char c = static_cast<unsigned char>(s[i]); size_t n = c < 0x80 ? 1 : (c & 0x20) == 0 ? 2 : (c & 0x10) == 0 ? 3 : 4; if (i + n > s.size()) n = s.size() - i; r.push_back(s.substr(i, n)); i += n; }
   return r;
 }
+// locals lose their numeric suffix: the same local name is then bound again in sibling (or nested) scopes
+inline std::string ReuseLocalNames(const std::string& s) {
+  std::string out; size_t i = 0;
+  while (i < s.size()) {
+    const unsigned char c0 = static_cast<unsigned char>(s[i]);
+    const bool greek = i + 1 < s.size() && ((c0 == 0xCE && static_cast<unsigned char>(s[i + 1]) >= 0xB1) || (c0 == 0xCF && static_cast<unsigned char>(s[i + 1]) <= 0x89));
+    const bool lowerStart = (c0 >= 'a' && c0 <= 'z') && (i == 0 || !std::isalnum(static_cast<unsigned char>(s[i - 1])));
+    if (greek || lowerStart) {
+      size_t j = i + (greek ? 2 : 1); while (j < s.size() && s[j] >= '0' && s[j] <= '9') ++j;
+      const bool single = j > i + (greek ? 2 : 1) && (j >= s.size() || !std::isalnum(static_cast<unsigned char>(s[j])));
+      if (single) { out += s.substr(i, greek ? 2 : 1); i = j; continue; }
+    }
+    out += s[i]; ++i;
+  }
+  return out;
+}
 inline std::string Mutate(Rng& r, const std::string& text, const Env& env) {
   auto cps = CodePoints(text);
   if (cps.empty()) return text;
-  switch (r.Below(8)) {
+  switch (r.Below(11)) {
+  case 9: { std::string s; for (auto& c : cps) s += c; return ReuseLocalNames(s); }
+  case 10: {  // filter with more (or fewer) parameters than indices
+    std::string s; for (auto& c : cps) s += c;
+    const auto f = s.find("Fi"); if (f == std::string::npos) return s + "∪Fi1[X1,X1](X1×X1)";
+    const auto lb = s.find('[', f); if (lb == std::string::npos) return s;
+    int depth = 0; size_t rb = lb; for (; rb < s.size(); ++rb) { if (s[rb] == '[') ++depth; else if (s[rb] == ']' && --depth == 0) break; }
+    if (rb >= s.size()) return s;
+    const std::string inner = s.substr(lb + 1, rb - lb - 1);
+    return s.substr(0, lb + 1) + (r.Pct(70) ? inner + "," + inner : "") + s.substr(rb);
+  }
+  case 8: {   // index of a projection / filter replaced by a boundary value (0, beyond the arity, beyond 16 bits, list with a zero)
+    std::string s; for (auto& c : cps) s += c;
+    for (size_t i = 0; i + 2 < s.size(); ++i) if ((s.compare(i, 2, "pr") == 0 || s.compare(i, 2, "Pr") == 0 || s.compare(i, 2, "Fi") == 0) && s[i + 2] >= '0' && s[i + 2] <= '9') {
+      size_t j = i + 2; while (j < s.size() && ((s[j] >= '0' && s[j] <= '9') || s[j] == ',')) ++j;
+      static const std::vector<std::string> idx{ "0", "9", "70000", "1,0", "0,1", "32768", "00" };
+      return s.substr(0, i + 2) + r.Pick(idx) + s.substr(j);
+    }
+    static const std::vector<std::string> wrap{ "pr0(", "Pr0(", "pr2(", "Pr0,1(" };
+    return r.Pick(wrap) + s + ")";
+  }
   case 0: cps.erase(cps.begin() + static_cast<long>(r.Below(cps.size()))); break;
   case 1: { const size_t i = r.Below(cps.size()); cps.insert(cps.begin() + static_cast<long>(i), cps[i]); break; }
   case 2: if (cps.size() > 1) { const size_t i = r.Below(cps.size() - 1); std::swap(cps[i], cps[i + 1]); } break;
